@@ -236,8 +236,15 @@ pub fn start_watchdog() {
                 if let Some((idx, started)) = cur {
                     let stall = last_change.elapsed().as_millis() as u64;
                     let total = started.elapsed().as_millis() as u64;
+                    // once the compaction thread of an open database has died, calls that wait for
+                    // it can never return: no need to sit out the full limits
+                    let dead_worker = PANICS
+                        .lock()
+                        .iter()
+                        .any(|p| p.thread.starts_with("raindb-") && !p.message.contains("RecvError"));
                     let stalled = stall > STALL_LIMIT_MS.load(Ordering::Relaxed)
-                        || longest_outstanding_ms() > CALL_LIMIT_MS.load(Ordering::Relaxed);
+                        || longest_outstanding_ms() > CALL_LIMIT_MS.load(Ordering::Relaxed)
+                        || (dead_worker && longest_outstanding_ms() > 8_000);
                     let overtime = total > CASE_LIMIT_MS.load(Ordering::Relaxed);
                     if stalled || overtime {
                         let panics = peek_panics();
